@@ -365,23 +365,29 @@ fn list(v: &[i64]) -> String { let s: Vec<String> = v.iter().map(|x| x.to_string
 def driver_code(idx, ch, maxlen_expr):
     """the loop that runs one chain over all inputs and prints the lines"""
     np = len(ch.nparams)
-    nvals = "[0usize, 1, 2, 3]" if np <= 1 else "[0usize, 1, 3]"
+    # small arguments on every input; arguments next to the usize / isize / u32 limits (a counter kept in
+    # a narrower or signed type, `n + 1` overflowing) on a third of the inputs
+    nvals = ("[0usize, 1, 2, 3, usize::MAX, 1usize << 63, (1usize << 63) - 1, 1usize << 32, usize::MAX - 1]" if np <= 1
+             else "[0usize, 1, 3, usize::MAX, 1usize << 63]")
     L = []
     if ch.kind == "s1":
         L.append("    for src in srcs1(%s).iter() {" % maxlen_expr)
         L.append("        let srcd = list(src);")
         L.append("        let srcr: &[i64] = src;")
         L.append("        let slen = src.len();")
+        L.append("        let bigok = src.iter().sum::<i64>() % 3 == 1;")
     else:
         L.append("    for src in srcs2().iter() {")
         L.append('        let srcd = format!("[{}]", src.iter().map(|s| list(s)).collect::<Vec<_>>().join(","));')
         L.append("        let srcr: &[&[i64]] = src;")
         L.append("        let slen = src.len();")
+        L.append("        let bigok = slen == 2;")
     L.append("        for zsrc in zsrcs(slen, %s).iter() {" % ("true" if ch.has_zip else "false"))
     indent = "            "
     for i in range(np):
         L.append(indent + "for n%d in %s {" % (i, nvals))
         indent += "    "
+        L.append(indent + "if n%d > 4 && !bigok { continue; }" % i)
     call = "ch%d(srcr, zsrc%s)" % (idx, "".join(", n%d" % i for i in range(np)))
     desc = ch.desc
     cdesc = ch.cons_desc
